@@ -61,6 +61,45 @@ def _roles(w: Worklist):
     return P, F
 
 
+def _marker_norm(conjs, vc, m0=0, m1=1):
+    """Atoms that test the visit marker are rewritten to the canonical `lt(0,marker)` (true on the post-visit entry):
+    `marker > 0`, `marker == 1`, `marker != 0`, `marker` … all say the same for the two marker values in use."""
+    import re as _re
+
+    def val(atom, v):
+        m = _re.match(r"^(lt|eq)\(([^,]+),([^,]+)\)$", atom)
+        if m:
+            op, x, y = m.groups()
+            def num(t):
+                t = t.strip()
+                if t == vc:
+                    return v
+                try:
+                    return int(t)
+                except ValueError:
+                    return None
+            a, b = num(x), num(y)
+            if a is None or b is None:
+                return None
+            return a < b if op == "lt" else a == b
+        if atom == "t(%s)" % vc:
+            return bool(v)
+        return None
+    out = []
+    for c in conjs:
+        nc = set()
+        for (a, p_) in c:
+            v0, v1 = val(a, m0), val(a, m1)
+            if v0 is False and v1 is True:
+                nc.add(("lt(0,%s)" % vc, p_))
+            elif v0 is True and v1 is False:
+                nc.add(("lt(0,%s)" % vc, not p_))
+            else:
+                nc.add((a, p_))
+        out.append(frozenset(nc))
+    return out
+
+
 def rule_dfs(A: Analysis, rep):
     insts = [("load_transitive_closure", A.fn(TI + "load_transitive_closure")),
              # the traversal helper (nested function / private method, whatever its name) is inlined into its caller by sa/inline.py
@@ -82,7 +121,11 @@ def rule_dfs(A: Analysis, rep):
         if len(raises) != 1:
             rep.bad("DFS1", "%s: cycle report" % name, w.loop, "expected one `raise CyclicDependency`, found %d" % len(raises))
             continue
-        gs = A.path_guards(g, pop, raises[0], fi)
+        # the two marker values in use: pushed with a dependency (first visit) / with the node itself (post visit)
+        _pc = [c.args[0].elts[1].value for (_pn, c) in w.pushes() if isinstance(c.args[0], ast.Tuple) and len(c.args[0].elts) == 2 and isinstance(c.args[0].elts[1], ast.Constant)
+               and norm(c.args[0].elts[0]) == k and c.args[0].elts[1].value not in (0, None, False)]
+        m1 = int(_pc[0]) if _pc and isinstance(_pc[0], (int, bool)) else 1
+        gs = _marker_norm(A.path_guards(g, pop, raises[0], fi), vc, 0, m1)
         first_visit = ("lt(0,%s)" % vc, False)
         ok = len(gs) == 1 and ("in(%s,%s)" % (k, p), True) in gs[0] and first_visit in gs[0] and len(gs[0]) == 2
         rep.check(ok, "DFS1", "%s: cycle ⇔ node already on the current path" % name, raises[0].ast,
@@ -97,7 +140,7 @@ def rule_dfs(A: Analysis, rep):
         ok = bool(adds) and bool(post_push)
         if ok:
             for a in adds:
-                ga = A.path_guards(g, pop, a, fi)
+                ga = _marker_norm(A.path_guards(g, pop, a, fi), vc, 0, m1)
                 ok = ok and all(first_visit in c for c in ga)
                 # marker pushed on every path through the add
                 r = w.iteration_reach([a], removed=post_push)
@@ -106,7 +149,7 @@ def rule_dfs(A: Analysis, rep):
         rep.check(ok, "DFS1", "%s: first visit enters the path and schedules its exit" % name, w.loop, "", "a node added to `%s` is not always paired with a pushed post-visit marker" % p)
         ok = bool(rems)
         for r_ in rems:
-            gr = A.path_guards(g, pop, r_, fi)
+            gr = _marker_norm(A.path_guards(g, pop, r_, fi), vc, 0, m1)
             ok = ok and bool(gr) and all(("lt(0,%s)" % vc, True) in c for c in gr) and k in norm(r_.ast)
         rep.check(ok, "DFS1", "%s: post-visit leaves the path" % name, w.loop, "", "`%s` entries are not removed exactly on the post-visit" % p)
         # skip sets
@@ -117,7 +160,7 @@ def rule_dfs(A: Analysis, rep):
             if push_tests:
                 okm = bool(marks) and not w.removes(f)
                 for (mn, mk) in marks:
-                    gm = A.path_guards(g, pop, mn, fi)
+                    gm = _marker_norm(A.path_guards(g, pop, mn, fi), vc, 0, m1)
                     okm = okm and all(("lt(0,%s)" % vc, True) in c for c in gm) and bool(gm)
                 rep.check(okm, "DFS1", "%s: push-time skip set `%s` is marked on post-visit only" % (name, f), w.loop,
                           "a dependency is skipped at push only if it has *finished*", "`%s` is tested when pushing a dependency but is not a finished-set (marked at push/first visit, or removed again): an edge to a node that is still on the stack or on the current path is dropped and a cycle through it is missed" % f)
